@@ -21,7 +21,15 @@ func (fr *c15Frame) inputs(arg []c15Val) ([]c15Val, *c15Exc) {
 		case *c15ListV:
 			return append([]c15Val{}, a.Elems...), nil
 		case string:
-			c15Unmod("string as $inputs")
+			// "Strings ... are also supported": the elements are the codepoints (all foo)
+			var out []c15Val
+			for i := 0; i < len(a); i++ {
+				if a[i] >= 0x80 {
+					c15Unmod("non-ASCII string as $inputs")
+				}
+				out = append(out, string(a[i]))
+			}
+			return out, nil
 		case *c15MapV:
 			c15Unmod("map as $inputs")
 		}
@@ -648,18 +656,22 @@ func (fr *c15Frame) arith(op string, args []c15Val) *c15Exc {
 	}
 	// inexact: two plausible evaluation strategies must agree, otherwise the
 	// rounding of the result is not pinned down by the documentation
-	f1 := c15FloatFold(op, nums, false)
-	f2 := c15FloatFold(op, nums, true)
-	if f1 != f2 && !(math.IsNaN(f1) && math.IsNaN(f2)) {
-		c15Unmod("inexact arithmetic whose rounding depends on the evaluation strategy")
+	// (also: folding from the identity element, which matters for the sign of zero:
+	// "- $x is equivalent to - 0 $x", "+ outputs the sum of all arguments")
+	f1 := c15FloatFold(op, nums, false, false)
+	for _, f := range []float64{c15FloatFold(op, nums, true, false), c15FloatFold(op, nums, false, true)} {
+		if math.Float64bits(f) != math.Float64bits(f1) && !(math.IsNaN(f1) && math.IsNaN(f)) {
+			c15Unmod("inexact arithmetic whose rounding or sign of zero depends on the evaluation strategy")
+		}
 	}
 	fr.put(f1)
 	return nil
 }
 
 // c15FloatFold folds left to right in float64; with exactPrefix the leading
-// exact arguments are first combined exactly.
-func c15FloatFold(op string, nums []c15Val, exactPrefix bool) float64 {
+// exact arguments are first combined exactly; with fromIdentity the fold starts
+// from the identity element (0 or 1) instead of the first argument.
+func c15FloatFold(op string, nums []c15Val, exactPrefix, fromIdentity bool) float64 {
 	apply := func(a, b float64) float64 {
 		switch op {
 		case "+":
@@ -670,6 +682,27 @@ func c15FloatFold(op string, nums []c15Val, exactPrefix bool) float64 {
 			return a * b
 		}
 		return a / b
+	}
+	if fromIdentity {
+		id := 0.0
+		if op == "*" || op == "/" {
+			id = 1.0
+		}
+		switch {
+		case op == "+" || op == "*":
+			acc := id
+			for _, n := range nums {
+				acc = apply(acc, c15Float(n))
+			}
+			return acc
+		case len(nums) == 1:
+			return apply(id, c15Float(nums[0]))
+		}
+		acc := c15Float(nums[0])
+		for _, n := range nums[1:] {
+			acc = apply(acc, c15Float(n))
+		}
+		return acc
 	}
 	if len(nums) == 1 {
 		switch op {
